@@ -23,7 +23,8 @@ REQUIRED_COUNTERS = ['files_validated', 'files_rewritten',
                      'files_needing_no_change', 'rounded_entries_checked',
                      'boundary_values_checked', 'genes_checked',
                      'rejections_checked',
-                     'known_symbols_containing_a_dot_checked']
+                     'known_symbols_containing_a_dot_checked',
+                     'rejections_checked_with_a_log_object']
 RULE = ('case block = generated h5ad files: integers stored as floats, '
         'non-integers, negatives, values straddling integer-type boundaries '
         '(254.5, 255.5, 65535.5, -128.5, -129.5, 2^31 +- .5), dense / CSR / '
@@ -411,6 +412,14 @@ def check_rejections(ctx, rng, work):
         scratch.mkdir()
         digest = fsmon.file_digest(src)
         raised = False
+        # with and without a log object (the command line tools always
+        # pass one; messages then go through the log instead of raise)
+        with_log = bool((k + int(rng.integers(2))) % 2)
+        kw = {}
+        if with_log:
+            from cell_type_mapper.cli.cli_log import CommandLog
+            kw['log'] = CommandLog()
+            ctx.bump('rejections_checked_with_a_log_object')
         try:
             with warnings.catch_warnings(), \
                     contextlib.redirect_stdout(io.StringIO()):
@@ -419,14 +428,15 @@ def check_rejections(ctx, rng, work):
                               gene_id_mapper=GeneIdMapper.from_mouse(),
                               tmp_dir=str(scratch), layer='X',
                               round_to_int=True,
-                              valid_h5ad_path=str(dest))
+                              valid_h5ad_path=str(dest), **kw)
         except Exception:
             raised = True
         ctx.bump('rejections_checked')
         ctx.features.add(('rejection', klass))
         if not raised:
             ctx.V(f'C16:not-rejected[{klass}]',
-                  f'cells={cells} genes={genes} encoding={enc}')
+                  f'cells={cells} genes={genes} encoding={enc} '
+                  f'log_object={with_log}')
         elif dest.exists():
             ctx.V(f'C16:rejected-but-file-written[{klass}]', klass)
         if fsmon.file_digest(src) != digest:
